@@ -255,7 +255,7 @@ theorem getByName_refines (v : JV) (hg : goodTop v = true) (name : Bytes) (ic : 
 
 /-! ### the key iterator and exists_all_keys / exists_any_keys -/
 
-theorem iterObjKeysLoop_spec (kvs : List (Bytes × JV)) (hg : goodK kvs = true) (pre mid post : Bytes) (jo ko : Nat)
+theorem iterObjKeysLoop_specA (kvs : List (Bytes × JV)) (hg : goodK kvs = true) (pre mid post : Bytes) (jo ko : Nat)
     (hjo : jo = pre.length) (hko : ko = pre.length + 4 * kvs.length + mid.length) :
     iterObjKeysLoop (pre ++ (keyWords kvs ++ (mid ++ (keyBytes kvs ++ post)))) kvs.length jo ko
       = .ok (kvs.map (·.1)) := by
@@ -286,7 +286,7 @@ theorem iterObjKeys_spec (kvs : List (Bytes × JV)) (hn : kvs.length < 536870912
   unfold iterObjKeys
   rw [hdrLen_obj _ hn]
   simp only [entry, List.append_assoc]
-  exact iterObjKeysLoop_spec kvs hg (u32be (C.OBJECT_CONTAINER_TAG + kvs.length)) (wordsK kvs) (paysK kvs ++ post)
+  exact iterObjKeysLoop_specA kvs hg (u32be (C.OBJECT_CONTAINER_TAG + kvs.length)) (wordsK kvs) (paysK kvs ++ post)
     4 (8 * kvs.length + 4) (by simp) (by simp [wordsK_length']; omega)
 
 theorem item_isKey (v : JV) (k : Bytes) :
